@@ -56,6 +56,10 @@ fn transforms(kind: Kind, exact: bool) -> Vec<Tr> {
         } else if DIFF_ONLY.contains(&kind) {
             v.push(Tr { a: 1.0, b: 4.0, rel: Rel::Same });
             v.push(Tr { a: 2.0, b: -0.5, rel: Rel::Same });
+            // an offset at which one ulp is the tick of the input (judged on integer histories only,
+            // where x + 2^52 is exact): a level added back onto a difference no longer rounds away
+            v.push(Tr { a: 1.0, b: 4503599627370496.0, rel: Rel::Same });
+            v.push(Tr { a: 1.0, b: -4503599627370496.0, rel: Rel::Same });
         }
     }
     if SCALE_INV.contains(&kind) {
@@ -85,6 +89,8 @@ struct S<T: Scalar> {
     base: Dyn<T>,
     img: Vec<Dyn<T>>,
     tainted: bool,
+    /// every input so far was an integer
+    ints: bool,
 }
 
 fn check<T: Scalar>(spec: &Spec, alpha: &[f64], depth: usize, st: &mut Stats, sink: &Sink) {
@@ -109,13 +115,14 @@ fn check_from<T: Scalar>(spec: &Spec, base: &[f64], alpha: &[f64], depth: usize,
             }
         })
         .collect();
-    let mut root = S { base: build::<T>(spec), img, tainted: T::inexact() > c0 };
+    let mut root = S { base: build::<T>(spec), img, tainted: T::inexact() > c0, ints: true };
     st.configs += 1;
     let k = spec.n + 1;
     let mut stepf = |s: &mut S<T>, hist: &[f64], st: &mut Stats| -> Step {
             let c0 = T::inexact();
             let xf = *hist.last().unwrap();
             let x = T::of(xf);
+            s.ints = s.ints && xf.fract() == 0.0;
             s.base.update(x);
             for (i, t) in trs.iter().enumerate() {
                 s.img[i].update(T::of(t.a) * x + T::of(t.b));
@@ -141,6 +148,9 @@ fn check_from<T: Scalar>(spec: &Spec, base: &[f64], alpha: &[f64], depth: usize,
                 }
                 if t.a < 0.0 && flat {
                     continue; // degenerate window: excluded by the statement for the sign clauses
+                }
+                if t.b.abs() > 1e15 && !s.ints {
+                    continue; // x + 2^52 is exact on integers only
                 }
                 st.oracle_evals += 1;
                 let want = match t.rel {
